@@ -57,8 +57,10 @@ def order_event(tid, base0, steps):
     for perm in itertools.permutations(range(len(steps))):
         f = modif.make(base)
         ok = 'ok'
+        kept = []           # (earlier object, what it advertised when it was made)
         for j in perm:
             s = steps[j]
+            kept.append((f, modif.routes(f)))
             try:
                 if s['kind'] == 'kwo':
                     f = modifiers.kwoargs(*s['names'])(f)
@@ -74,7 +76,9 @@ def order_event(tid, base0, steps):
             except Exception as e:  # noqa
                 ok = 'other:' + type(e).__name__
                 break
-        p = {'order': list(perm), 'applied': ok, 'adv': [], 'calls': []}
+        # deriving a further variant from a kept object must not change what that object advertises (annotate is meant to, and is excluded)
+        stable = all(modif.routes(obj) == before for (obj, before), j in zip(kept, perm) if steps[j]['kind'] != 'ann' and not any(steps[x]['kind'] == 'ann' for x in perm))
+        p = {'order': list(perm), 'applied': ok, 'adv': [], 'calls': [], 'kept_stable': stable}
         if ok == 'ok':
             p['adv'] = modif.routes(f)
             p['calls'] = modif.call_all(f, base, False, None)
